@@ -159,6 +159,21 @@ def run(ctx) -> None:
                 ctx.check(case, lambda c: _run_one(ctx, c))
     ctx.sweep("every id x size 0..10 x first values, followed by known records", n, True)
 
+    # the same id twice with different values, split at every point (a later record overrides an earlier one)
+    d = 0
+    for cid in (0x0048, 0x0216, 0x0214, 0x0212, 0x0210, 0x0215, 0x021F, 0x0043, 0x0042, 0x0018, 0x0219, 0x00E3, 0x0009, 0x000A, 0x0039, 0x021A, 0x0224):
+        for v1 in (0, 1, 2, 3, 5, 9):
+            for v2 in (0, 1, 2, 4, 7):
+                if v1 == v2:
+                    continue
+                recs = [[0x0212, "01"], [cid, "%02x" % v1], [0x0214, "01"], [cid, "%02x" % v2], [0x0213, "01"]]
+                for k in (1, 2, 3, 4):
+                    d += 1
+                    if ctx.mine(d) and (not ctx.quick or (d + cid) % 3 == 0 or cid in (0x0048, 0x0216)):
+                        case = {"records": recs, "trailer": "", "trailer2": "", "k": k, "x": 0, "paging": True}
+                        ctx.check(case, lambda c: _run_one(ctx, c))
+    ctx.sweep("same id twice with different values x split points", d, not ctx.quick)
+
     hexb = lambda s_: s_.map(lambda b: b.hex())
     first = st.one_of(st.integers(0, 13), st.just(100), st.integers(0, 255))
     data = st.integers(0, 10).flatmap(lambda size: st.tuples(first, st.binary(min_size=max(0, size - 1), max_size=max(0, size - 1))).map(
